@@ -20,6 +20,7 @@ def main(argv=None):
     s.add_argument("--out", required=True)
     s.add_argument("--budget", type=float, default=30)
     s.add_argument("--index", type=int, default=None)
+    sub.add_parser("selftest")
     r = sub.add_parser("replay")
     r.add_argument("path")
     a = ap.parse_args(argv)
@@ -32,6 +33,10 @@ def main(argv=None):
 
         run_shard(a.pid.upper(), a.tier, a.seed, a.shard, a.nshards, a.out, a.budget, a.index)
         return 0
+    if a.cmd == "selftest":
+        from vf.core.selftest import selftest
+
+        return selftest()
     if a.cmd == "replay":
         from vf.core.runner import replay
 
